@@ -412,6 +412,48 @@ func checkExpPass(e *experiment.Experiment, c C19Exp, rec *Rec) (err error) {
 			return fmt.Errorf("trial %d: %v", i, err)
 		}
 	}
+	// the best organism of the whole experiment: the fittest champion (of solved generations only, when asked), together with
+	// the index of a trial that recorded it
+	for _, onlySolvers := range []bool{false, true} {
+		type res struct {
+			fit   float64
+			trial int
+			ok    bool
+		}
+		got, err := call("Experiment.BestOrganism", func() res {
+			o, trial, ok := e.BestOrganism(onlySolvers)
+			if o == nil {
+				return res{0, trial, ok}
+			}
+			return res{o.Fitness, trial, ok}
+		})
+		if err != nil {
+			return err
+		}
+		best, found := math.Inf(-1), false
+		for _, t := range c.Exp.Trials {
+			for _, g := range t.Generations {
+				if !onlySolvers || g.Solved {
+					best, found = math.Max(best, g.Champion.Fitness), true
+				}
+			}
+		}
+		if got.ok != found || (found && got.fit != best) {
+			return fmt.Errorf("Experiment.BestOrganism(%v) = (fitness %v, found %v), recomputed (%v, %v)", onlySolvers, got.fit, got.ok, best, found)
+		}
+		if found {
+			holds := false
+			if got.trial >= 0 && got.trial < len(c.Exp.Trials) {
+				for _, g := range c.Exp.Trials[got.trial].Generations {
+					holds = holds || ((!onlySolvers || g.Solved) && g.Champion.Fitness == best)
+				}
+			}
+			if !holds {
+				return fmt.Errorf("Experiment.BestOrganism(%v) names trial %d, which recorded no champion of the best fitness %v", onlySolvers, got.trial, best)
+			}
+			rec.Class("experiment-level best organism located")
+		}
+	}
 	type quad struct{ a, b, c, d float64 }
 	gotW, err := call("AvgWinnerStatistics", func() quad {
 		a, b, c, d := e.AvgWinnerStatistics()
